@@ -401,3 +401,34 @@ Proof.
   intros C Cv V Ht Hu Htt R. eapply handed_after_ancestors; eauto.
   apply C. auto.
 Qed.
+
+(* ------------------------------------------- from_dag meets its specification *)
+From Verif Require Import Proofs.GraphProofs.
+
+Theorem closure_edges_closure_spec tasks E : closure_spec tasks E (closure_edges tasks E).
+Proof.
+  intros u t. rewrite closure_edges_spec, reachb_iff. tauto.
+Qed.
+
+Theorem from_dag_spec tasks E p s :
+  from_dag tasks E p = Some s ->
+  gnodes s = tasks /\ gedges s = closure_edges tasks E /\ prios s = p /\ fresh s /\
+  strict_order (gedges s) /\ covers s /\ acyclic E.
+Proof.
+  unfold from_dag. destruct (has_cycle E) eqn:HC; [discriminate|].
+  intros H. inversion H; subst; clear H. simpl.
+  assert (A : acyclic E) by exact (has_cycle_false_acyclic E HC).
+  split; [reflexivity|]. split; [reflexivity|]. split; [reflexivity|].
+  split; [split; reflexivity|]. split; [|split; [|exact A]].
+  - apply (closure_strict_order tasks E); auto. apply closure_edges_closure_spec.
+  - intros u v He. simpl in *. apply closure_edges_spec in He. tauto.
+Qed.
+
+Theorem from_dag_none_iff tasks E p :
+  from_dag tasks E p = None <-> exists v, Reach E v v.
+Proof.
+  unfold from_dag. destruct (has_cycle E) eqn:HC.
+  - split; auto. intros _. apply has_cycle_iff. exact HC.
+  - split; [discriminate|]. intros [v R]. exfalso.
+    exact (has_cycle_false_acyclic E HC v R).
+Qed.
